@@ -270,7 +270,7 @@ def main(tier, seed):
         input_distribution=stats, samples=samples or [dict(note='none')],
         source_blobs=repo_blob_ids(['sismic/interpreter/default.py', 'sismic/code/python.py', 'sismic/model/events.py',
                                     'sismic/clock/clock.py']),
-        proof_info={k: info.get(k) for k in ('build_ok', 'ok', 'closed', 'axioms', 'forbidden_tokens', 'note')})
+        proof_info={k: info.get(k) for k in ('build_ok', 'ok', 'closed', 'axioms', 'forbidden_tokens', 'note', 'coqchk')})
     write_evidence(PROP, tier, seed, t0, cov,
                    ['initial contexts contain picklable values only (callables in the context cannot be pickled by Python)',
                     'listeners are not attached (an attached lambda cannot be pickled); bound interpreters are outside this check',
